@@ -175,6 +175,47 @@ theorem C10_conn_transparent {α : Type} (hG : Good E bs) (iv : Bytes) (hiv : iv
   obtain ⟨h1, h2⟩ := hp s' t heq
   exact ⟨h1, h2.1⟩
 
+/-- Switching the cipher on in mid-stream loses nothing (the login flow: the peer sends its last plain
+packets `pre`, calls `SetCipher`, and sends encrypted traffic `ws` at once).  Let `p` be any read program
+that, on a source holding exactly `pre`, succeeds with value `a` and consumes all of it, and that never
+depends on what lies beyond the bytes it consumes (`Rd.ExtStable`: every decoder built from
+`io.ReadFull`-style primitives).  Then for EVERY delivery schedule `s` of `pre ++ ct` — in particular
+when one socket read returns the plain tail together with ciphertext — `p` run through the not yet
+encrypted `Conn.Reader` returns `a`, and the reader installed by `SetCipher` afterwards yields exactly
+the bytes written after the peer's `SetCipher`, all of them.  Rests on the model assumption stated at
+`Model.CFB8.connRead`: before `SetCipher`, `Conn.Reader` is the socket itself (no read-ahead). -/
+theorem C10_switch_transparent {α : Type} (hG : Good E bs) (iv : Bytes) (hiv : iv.length = bs)
+    (pre : Bytes) (ws : List Bytes) (p : Rd α) (hp : Rd.ExtStable p)
+    (s₀ s₀' : Stream) (a : α) (h₀ : p s₀ = (.ok a, s₀')) (hpre : s₀.flat = pre) (hall : s₀'.flat = []) :
+    ∃ ct st₁, streamWriter E bs (newCFB8 iv) ws = .ok (ct, st₁) ∧ ct = enc E iv ws.flatten ∧
+      ∀ (s : Stream), s.flat = pre ++ ct →
+        ∃ s' s'', connRead p s = (.ok a, s') ∧ connSetCipher E bs iv s' = .ok s'' ∧
+          s''.flat = ws.flatten ∧ s''.failing = s.failing := by
+  obtain ⟨ct, st₁, hw, hct, h⟩ := C10_stream_transparent hG iv hiv ws
+  refine ⟨ct, st₁, hw, hct, fun s hs => ?_⟩
+  obtain ⟨s', hps, hflat, hfail⟩ := hp s₀ a s₀' h₀ s ct (by rw [hs, hpre])
+  rw [hall, List.nil_append] at hflat
+  obtain ⟨s'', hr, hpl, hf, _⟩ := h s' ct.length (by rw [hflat, List.take_length])
+  have hlen : ct.length = ws.flatten.length := by rw [hct]; simp [enc]
+  rw [hlen, List.take_length] at hpl
+  exact ⟨s', s'', hps, hr, hpl, hf.trans hfail⟩
+
+/-- … and the assumption is needed: a reader that takes a whole delivery from the socket although the
+program consumes only part of it (what a `bufio.Reader` between `Conn.Reader` and the socket does) makes
+the bytes read ahead invisible to the reader `SetCipher` installs on the socket.  Block size 2, identity
+block function, one plain byte `0x2a` followed by the encryption of `[1, 2, 3]`, delivered in one read: -/
+theorem C10_switch_readahead_loses :
+    let E : Bytes → Bytes := fun b => b
+    let ct := enc E [7, 9] [1, 2, 3]
+    let s : Stream := { chunks := [0x2a :: ct] }
+    -- honest reader: consumes one byte, the rest stays in the socket, decrypts to the message
+    (∃ s', connRead Rd.readByte s = (.ok 0x2a, s') ∧
+        (connSetCipher E 2 [7, 9] s').map Stream.flat = .ok [1, 2, 3]) ∧
+    -- read-ahead: the whole delivery has left the socket; nothing is left to decrypt
+    (connSetCipher E 2 [7, 9] (Rd.readOnce 4096 s).2).map Stream.flat = .ok [] := by
+  intro E ct s
+  exact ⟨⟨(Rd.readByte s).2, by decide, by decide⟩, by decide⟩
+
 /- NOTE (composition left to C07/C09): DESIGN §8 states `C10_conn_transparent` directly about frames
    ("the frames sent through an encrypting writer are exactly the frames seen through the decrypting
    reader").  That is the instance of the theorem above with `ws` := the packed frames (one `Write` per
